@@ -201,6 +201,12 @@ func (s *Shard) InsertPoints(points []models.Point) error {
 		mergedErrC := utils.MergeErrorsWithContext(ctx, indexQErrC, dispatchErrC)
 		// At this point concurrent stuff is over, we can check for errors
 		if err := <-mergedErrC; err != nil {
+			// Stop the pipeline and wait for the index goroutines to finish:
+			// they must not touch the buckets once this transaction is
+			// rolled back.
+			cancel()
+			for range dispatchErrC {
+			}
 			return fmt.Errorf("could not complete insert: %w", err)
 		}
 		// ---------------------------
@@ -316,6 +322,12 @@ func (s *Shard) UpdatePoints(points []models.Point) ([]uuid.UUID, error) {
 		mergedErrC := utils.MergeErrorsWithContext(ctx, indexQErrC, dispatchErrC)
 		// At this point concurrent stuff is over, we can check for errors
 		if err := <-mergedErrC; err != nil {
+			// Stop the pipeline and wait for the index goroutines to finish:
+			// they must not touch the buckets once this transaction is
+			// rolled back.
+			cancel()
+			for range dispatchErrC {
+			}
 			return fmt.Errorf("could not complete update: %w", err)
 		}
 		return nil
@@ -537,6 +549,12 @@ func (s *Shard) DeletePoints(deleteSet map[uuid.UUID]struct{}) ([]uuid.UUID, err
 		mergedErrC := utils.MergeErrorsWithContext(ctx, indexQErrC, dispatchErrC)
 		// At this point concurrent stuff is over, we can check for errors
 		if err := <-mergedErrC; err != nil {
+			// Stop the pipeline and wait for the index goroutines to finish:
+			// they must not touch the buckets once this transaction is
+			// rolled back.
+			cancel()
+			for range dispatchErrC {
+			}
 			return fmt.Errorf("could not complete insert: %w", err)
 		}
 		// ---------------------------
